@@ -189,6 +189,7 @@ class BMSIO(GameIO):
                     per_lane.setdefault(int(r["column"]), []).append((t0, t0 + float(r["length"])))
                 else:
                     per_lane.setdefault(int(r["column"]), []).append((t0, t0))
+        contains = False
         for c, spans in per_lane.items():
             spans.sort()
             slots = []
@@ -199,9 +200,13 @@ class BMSIO(GameIO):
             if any(y - x < 1e-9 for x, y in zip(slots, slots[1:])):
                 if len({round(x, 9) for x in slots}) == len(slots):
                     # every object has a slot of its own, but a long note contains another object of its lane: the #LNOBJ rule
-                    # ("the head is the preceding object") cannot say that, so only conservation of objects is judged
-                    return "a long note contains another object of its lane"
+                    # ("the head is the preceding object") cannot say that, so only conservation of objects is judged -
+                    # provided NO lane has two objects in one slot (checked for all lanes before this reason is given)
+                    contains = True
+                    continue
                 return "objects collide in a (lane, grid slot)"
+        if contains:
+            return "a long note contains another object of its lane"
         return ""
 
     # -------------------------------------------------------------- C05
